@@ -103,11 +103,8 @@ fn c08_at_safe() {
     let inside = g.contains(&q, m);
     let v = g.at(&q, m);
     assert!(v.is_some() == inside, "C08.K.at.safe.some_iff_contains: a value is delivered exactly for points inside grid + margin");
-    if inside {
-        assert!(q[0] >= 0.0 - 8.0 * m && q[0] <= 16.0 + 8.0 * m && q[1] >= 0.0 - 2.0 * m && q[1] <= 4.0 + 2.0 * m, "C08.K.at.safe.contains: containment means within the borders extended by margin x spacing of the same axis");
-    } else {
-        assert!(!(q[0] >= 0.0 && q[0] <= 16.0 && q[1] >= 0.0 && q[1] <= 4.0), "C08.K.at.safe.contains: points within the borders are contained");
-    }
+    let within = q[0] >= 0.0 - 8.0 * m && q[0] <= 16.0 + 8.0 * m && q[1] >= 0.0 - 2.0 * m && q[1] <= 4.0 + 2.0 * m;
+    assert!(inside == within, "C08.K.at.safe.contains: contained exactly when within the borders extended by margin x spacing of the same axis");
     kani::cover!(inside, "a contained point exists");
     kani::cover!(!inside && !q[0].is_nan() && !q[1].is_nan(), "a rejected finite point exists");
 }
@@ -199,13 +196,17 @@ fn c08_at_margin() {
     // a quarter cell east of the grid at lat 3 (midway rows 0 and 1): u = 1.25 in the cell cols 1..2
     let q = Coor4D([18.0, 3.0, 0.0, 0.0]);
     assert!(g.at(&q, 0.0).is_none(), "C08.K.at.margin.strict: outside the grid at margin 0");
-    let v = g.at(&q, 0.5).unwrap();
+    let v = g.at(&q, 0.5);
+    assert!(v.is_some(), "C08.K.at.margin.east_inside: a quarter cell east of the grid is within the half-cell margin");
+    let v = v.unwrap();
     let left = 0.5 * nodes[4] as f64 + 0.5 * nodes[1] as f64;
     let right = 0.5 * nodes[5] as f64 + 0.5 * nodes[2] as f64;
     assert!(v[0] == (1.0 - 1.25) * left + 1.25 * right, "C08.K.at.margin.east: linear continuation of the border cell");
     // a quarter cell north of the grid at lon 4 (midway cols 0 and 1): v = 1.25 in the cell rows 0..1
     let q = Coor4D([4.0, 4.5, 0.0, 0.0]);
-    let v = g.at(&q, 0.5).unwrap();
+    let v = g.at(&q, 0.5);
+    assert!(v.is_some(), "C08.K.at.margin.north_inside: a quarter cell north of the grid is within the half-cell margin");
+    let v = v.unwrap();
     let left = (1.0 - 1.25) * nodes[3] as f64 + 1.25 * nodes[0] as f64;
     let right = (1.0 - 1.25) * nodes[4] as f64 + 1.25 * nodes[1] as f64;
     assert!(v[0] == 0.5 * left + 0.5 * right, "C08.K.at.margin.north: linear continuation of the border cell");
